@@ -1,9 +1,10 @@
 (* Extraction of the executable models to OCaml.  Directives used: exactly those of
    ExtrOcamlBasic and ExtrOCamlFloats (standard library), nothing else. *)
 From Coq Require Import Extraction ExtrOcamlBasic ExtrOCamlFloats.
-From PV Require Import Num model.Optimiser model.Parse model.Geom.
+From PV Require Import Num model.Optimiser model.Parse model.Geom model.Pipeline.
 Extraction Language OCaml.
 Extraction "extract/model.ml" NumF build optimise run run_states init advance accept
   from_operations_l
   positions to_cartesian_isometry periodic_images cell_area packed_score check_intersection
-  shape_transform shape_intersects lj_score lj_energy ljshape_energy poly_area mol_area shape_radius.
+  shape_transform shape_intersects lj_score lj_energy ljshape_energy poly_area mol_area shape_radius
+  score_cmp score_eq max_keeps_first.
